@@ -1,9 +1,10 @@
 //! Property registry.
 use crate::engine::PropertyInfo;
 
+pub mod c03;
 pub mod c17;
 pub mod c20;
 
 pub fn registry() -> Vec<PropertyInfo> {
-    vec![c17::info(), c20::info()]
+    vec![c03::info(), c17::info(), c20::info()]
 }
